@@ -288,31 +288,55 @@ def r15a(R):
     if len(sinks) != 1:
         raise AnalysisError('_color_mz_light: set_zone_colors call not found')
     c = sinks[0]
-    a0, a1 = norm(c.args[0]), norm(c.args[1]).replace(' ', '')
-    # provenance of the two locals
-    defs = {}
-    for n in walk_own(mz.node):
-        if isinstance(n, ast.Assign) and isinstance(n.targets[0], ast.Name):
-            defs.setdefault(n.targets[0].id, []).append(norm(n.value))
-    start_ok = defs.get(a0) == ['self._reg.first_zone']
-    end_name = a1[:-2] if a1.endswith('+1') else (a1[2:] if a1.startswith('1+') else None)
-    end_ok = end_name is not None and sorted(defs.get(end_name, [])) == \
-        sorted(['self._reg.last_zone', a0])
-    R.check(mz, c, start_ok and end_ok,
+    # every acyclic path to the call, locals replaced by what they stand for;
+    # tests of `<last zone> is None` split the paths into the two cases
+    sink_nodes = A.node_of_call(mz, c)
+    cases = {True: set(), False: set(), None: set()}
+    starts = set()
+
+    def subst(e, env):
+        import copy
+        from ..inline import _Subst
+        return _Subst(env).visit(copy.deepcopy(e))
+
+    def walk(n, env, last_none, seen):
+        if n in sink_nodes:
+            starts.add(norm(subst(c.args[0], env)))
+            cases[last_none].add(norm(subst(c.args[1], env)).replace(' ', ''))
+            return
+        if n.id in seen or len(seen) > 60:
+            return
+        seen = seen | {n.id}
+        if n.kind == 'stmt' and isinstance(n.ast, ast.Assign) and \
+                len(n.ast.targets) == 1 and isinstance(n.ast.targets[0], ast.Name):
+            env = dict(env)
+            env[n.ast.targets[0].id] = subst(n.ast.value, env)
+        for m, lab in n.succs:
+            ln = last_none
+            if n.kind == 'cond' and lab in (True, False):
+                atom, pol = A.canonical_atom(subst(n.ast, env))
+                if atom == 'self._reg.last_zone is None':
+                    ln = (lab is True) == pol
+                    if last_none is not None and ln != last_none:
+                        continue
+            walk(m, env, ln, seen)
+    walk(cfg.entry, {}, None, frozenset())
+    first, last = 'self._reg.first_zone', 'self._reg.last_zone'
+
+    def plus1(t, base):
+        return t in (base + '+1', '1+' + base, '(' + base + ')+1')
+    ok_start = starts == {first}
+    ok_some = all(plus1(t, last) for t in cases[False]) and bool(cases[False]) \
+        and not cases[None]
+    R.check(mz, c, ok_start and ok_some,
             'set_zone_colors must get (first_zone, last_zone + 1): the '
-            'language\'s last zone is inclusive, the device range is half-open')
-    none_fix = [n for n in cfg.nodes if n.kind == 'cond'
-                and norm(n.ast) == '%s is None' % end_name]
-    ok = False
-    if none_fix:
-        tgt = [m for m, lab in none_fix[0].succs if lab is True]
-        ok = bool(tgt) and tgt[0].kind == 'stmt' and \
-            norm(tgt[0].ast) == '%s = %s' % (end_name, a0)
-        sink_nodes = A.node_of_call(mz, c)
-        ok = ok and cfg.find_path([cfg.entry], lambda n: n in sink_nodes,
-                                  avoid=none_fix) is None
-    R.check(mz, 'omitted last zone -> first zone, before the widening', ok,
-            '`zone a` alone must address exactly zone a')
+            'language\'s last zone is inclusive, the device range is half-open '
+            '(found start %s, end %s)' % (sorted(starts), sorted(
+                cases[False] | cases[None])))
+    R.check(mz, 'omitted last zone -> first zone, before the widening',
+            bool(cases[True]) and all(plus1(t, first) for t in cases[True]),
+            '`zone a` alone must address exactly zone a (found end %s when no '
+            'last zone is given)' % sorted(cases[True]))
     cm = A.cls(MATRIX, 'ColorMatrix')
     for name in ('overlay_color', 'overlay_section'):
         m = cm.methods[name]
